@@ -380,6 +380,10 @@ class Fn:
                 rv = s["rv"]
                 if rv["k"] in ("ref", "rawptr") and rv.get("mut"):
                     g[rv["place"]["l"]].add(s["place"]["l"])
+                elif rv["k"] in ("use", "cast") and rv["x"].get("k") in ("copy", "move") and not s["place"]["p"]:
+                    # moves / unsize coercions of `&mut` references keep pointing at the same storage
+                    if is_mut_ref_ty(self.locals[s["place"]["l"]]) and ty_has_mut_ref(self.locals[rv["x"]["l"]]):
+                        g[rv["x"]["l"]].add(s["place"]["l"])
             # results of calls returning `&mut` (deref_mut, index_mut, as_mut_slice, split_at_mut..):
             for c in self.calls():
                 dty = self.locals[c.dest["l"]]
